@@ -90,8 +90,19 @@ Proof.
              ltac:(simpl; tauto))). reflexivity.
 Qed.
 
+Lemma mem_reach_ok : forall T t, table_ok T = true -> mem_reach T t = [t].
+Proof.
+  intros T t H. unfold mem_reach.
+  rewrite (perm_singleton _ _ _ (table_ok_perm T "bound_mem_functor" [VMember "obj_"] H
+             ltac:(simpl; tauto))).
+  cbn. rewrite (table_ok_limit T H). reflexivity.
+Qed.
+
 Lemma bound_refs_ok : forall T b, table_ok T = true -> bound_refs T b = bound_refs_doc b.
-Proof. intros T b H. unfold bound_refs. rewrite (table_ok_bound T H). reflexivity. Qed.
+Proof.
+  intros T b H. unfold bound_refs. rewrite (table_ok_bound T H).
+  destruct b; try reflexivity; cbn [bound_refs_doc]; apply mem_reach_ok; exact H.
+Qed.
 
 Lemma flat_map_bound_refs_ok : forall T bs, table_ok T = true ->
   flat_map (bound_refs T) bs = flat_map bound_refs_doc bs.
